@@ -21,6 +21,17 @@ Definition prog_reads (p : nat * bool * N) : nat :=
 Definition completed (k : nat) (c : cons) : nat :=
   k - reads c - b2n (is_st CWaitRead c).
 
+Lemma map_eq_pointwise {A B C} (f : A -> C) (g : B -> C) :
+  forall (l1 : list A) (l2 : list B), length l1 = length l2 ->
+  (forall i a b, nth_error l1 i = Some a -> nth_error l2 i = Some b -> f a = g b) ->
+  map f l1 = map g l2.
+Proof.
+  induction l1 as [|a l1 IH]; intros [|b l2] Hl H; cbn in Hl; try discriminate; [reflexivity|].
+  cbn. f_equal.
+  - apply (H 0); reflexivity.
+  - apply IH; [lia|]. intros i a' b' Ha Hb. apply (H (S i)); assumption.
+Qed.
+
 Section S.
   Variable nchunks : nat.
   Variable term : Z.
@@ -240,6 +251,19 @@ Section S.
     destruct (H i c p Hn Hp) as (_ & Hg & Hle & _).
     split; [rewrite Hg at 1; apply items_length|]. split; [exact Hle|].
     intros j Hj. rewrite Hg. apply items_nth. exact Hj.
+  Qed.
+
+  (** When everybody has finished (the only maximal runs, by [no_stuck] and
+      the ranking), consumer i holds exactly the first k_i source results. *)
+  Theorem final_results progs sched s :
+    progs <> [] -> run (init progs) sched = Some s -> all_done s = true ->
+    map got (cs s) = map (fun p => items (prog_reads p)) progs.
+  Proof.
+    intros Hne Hr Hd. destruct (same_sequence_full progs sched s Hne Hr) as [Hl H].
+    apply map_eq_pointwise; [exact Hl|]. intros i c p Hc Hp.
+    destruct (H i c p Hc Hp) as (_ & _ & _ & _ & Hdone). apply Hdone.
+    unfold all_done in Hd. rewrite forallb_forall in Hd.
+    pose proof (Hd c (nth_error_In _ _ Hc)) as X. unfold is_st in X. destruct (st c); try discriminate; reflexivity.
   Qed.
 
   (** ---- the lenient executor used by the harness ---- *)
